@@ -15,14 +15,14 @@
 //!          |  { block }
 //!   FX    :=  Ok(..)  |  Err(ERR)  |  if C { block } else { block }  |  { block }  |  return FX
 //!          |  f(R)                                                   f one of the other response functions
-//!          |  R.headers().get(H).map_or(FX, |v| FX)  |  .map_or_else(|| FX, |v| FX)
+//!          |  R.headers().get(H).map_or(FX, |v| FX)  |  .map_or_else(|| FX, |v| FX)  |  .map(|v| FX).unwrap_or(FX)
 //!          |  if let Some(v) = R.headers().get(H) { block } else { block }  |  match R.headers().get(H) { .. }
 //!          |  DE(B).map_err(|e| W(e, B.to_vec()))  |  match DE(B) { Ok(a) => Ok(a), Err(b) => Err(W(b, B.to_vec())) }   `decodeSuccess`
 //!          |  match DE[::<T>](B) { Ok(a) => Err(V(a)), Err(b) => Err(W(b, B.to_vec())) }          `decodeError`
 //!   ERR   :=  <..>::Other(<anything>)                  the message is NOT recorded (no property mentions it)
 //!          |  match DE[::<T>](B) { Ok(a) => V(a), Err(b) => W(b, B.to_vec()) }                    `decodeError`
 //!   B     :=  R.body() | R.body().as_slice()
-//!   C     :=  !C | R.status() != P | R.status() == P | R.status().is_success() | B.is_empty()
+//!   C     :=  !C | R.status() != P | R.status() == P | R.status().is_success() | B.is_empty() | B.len() == 0 (and its variants)
 //!          |  v.to_str().ok() {.filter(|x| PRED)}* .is_none() | .is_some()
 //!          |  match v.to_str() { Ok(x) => PRED, Err(_) => false } | v.to_str().map_or(false, |x| PRED)
 //!          |  v.to_str().is_ok_and(|x| PRED) | v.to_str().map(|x| PRED).unwrap_or(false)
@@ -159,6 +159,24 @@ fn cond(cx: &Cx, env: &Env, e: &syn::Expr) -> R<Cond> {
                 let (root, calls) = chain(strip_ref(x));
                 is_resp(cx, root) && calls.len() == 1 && calls[0].method == "status" && calls[0].args.is_empty()
             };
+            // <body>.len() == 0 | != 0 | > 0 | < 1 ..
+            let is_len = |x: &syn::Expr| match strip(x) {
+                syn::Expr::MethodCall(m) => m.method == "len" && m.args.is_empty() && is_body(cx, &m.receiver),
+                _ => false,
+            };
+            let (len_side, num, flipped) = if is_len(&b.left) { (true, int_lit(&b.right), false) } else if is_len(&b.right) { (true, int_lit(&b.left), true) } else { (false, None, false) };
+            if len_side {
+                let empty = Cond::BodyIsEmpty;
+                let nonempty = Cond::Not(Box::new(Cond::BodyIsEmpty));
+                return match (&b.op, num, flipped) {
+                    (syn::BinOp::Eq(_), Some(0), _) => Ok(empty),
+                    (syn::BinOp::Ne(_), Some(0), _) => Ok(nonempty),
+                    (syn::BinOp::Gt(_), Some(0), false) | (syn::BinOp::Lt(_), Some(0), true) => Ok(nonempty),
+                    (syn::BinOp::Lt(_), Some(1), false) | (syn::BinOp::Gt(_), Some(1), true) => Ok(empty),
+                    (syn::BinOp::Ge(_), Some(1), false) | (syn::BinOp::Le(_), Some(1), true) => Ok(nonempty),
+                    _ => bad(),
+                };
+            }
             let (other, ok) = if is_status(&b.left) { (&b.right, true) } else if is_status(&b.right) { (&b.left, true) } else { (&b.right, false) };
             if !ok {
                 return bad();
@@ -495,6 +513,25 @@ fn flow_expr(cx: &Cx, env: &Env, e: &syn::Expr, tail: bool) -> R<Flow> {
                     // a closure is a function of its own: `return` in it yields the closure's value
                     let present = flow_expr(cx, &env.with_rename(&v, "it"), body, true)?;
                     return Ok(Flow::Header(h, Box::new(absent), Box::new(present)));
+                }
+            }
+            // R.headers().get(H).map(|v| FX).unwrap_or(FX) | .unwrap_or_else(|| FX)
+            if (name == "unwrap_or" || name == "unwrap_or_else") && m.args.len() == 1 {
+                if let syn::Expr::MethodCall(mm) = strip(&m.receiver) {
+                    if mm.method == "map" && mm.args.len() == 1 {
+                        if let (Some(h), Some((v, body))) = (header_get(cx, env, &mm.receiver), closure1(&mm.args[0])) {
+                            let absent = if name == "unwrap_or" {
+                                flow_expr(cx, env, &m.args[0], false)?
+                            } else {
+                                match strip(&m.args[0]) {
+                                    syn::Expr::Closure(c) if c.inputs.is_empty() => flow_expr(cx, env, &c.body, true)?,
+                                    _ => return fail(FILE, cx.item, "`.unwrap_or_else(|| <absent>)`"),
+                                }
+                            };
+                            let present = flow_expr(cx, &env.with_rename(&v, "it"), body, true)?;
+                            return Ok(Flow::Header(h, Box::new(absent), Box::new(present)));
+                        }
+                    }
                 }
             }
             // DE(B).map_err(|e| W(e, B.to_vec()))
